@@ -464,6 +464,24 @@ def pre_campaign(tier, seed):
                 hashes.append(M.case_hash(case))
             else:
                 inconclusive += 1
+        # fixed near-resonance cases: levels split by less than the default resonance tolerance (transverse field 1e-10 on a Hubbard atom /
+        # on one site of a dimer), examined with a finer user tolerance, on 2 and 3 ranks
+        nnear = 0
+        for (P, nsite) in ([] if failures else [(2, 1), (3, 1), (2, 2)]):
+            labs = ["A", "B"][:nsite]
+            terms = [gen.P("coulombS", l, [2.0, 0.0], [-1.0, 0.0]) for l in labs] + ([gen.P("hop3", "A", "B", [0.5, 0.0])] if nsite == 2 else [])
+            terms += gen.with_hc([1e-10, 0.0], [[1, "A", 0, 0], [0, "A", 0, 1]])
+            mdl = {"cplx": False, "sites": [[l, 1, 2] for l in labs], "terms": terms, "order_spins": 0, "symm": {"mode": "default"}, "beta": 4.0, "family": "wide"}
+            case = {"model": mdl, "tol2": [1e-12, 1e-16, 1e-5], "P": P, "T": 1, "delay_seed": 1, "delay_us": 0, "sa": [0, 1, 0, 1], "sa_clear": 0,
+                    "keys": [[0, 1, 0, 1], [0, 1, 1, 0], [0, 0, 0, 0]], "split": 0, "clear": 0, "triples": [[0, 0, 0], [0, -1, 0]], "eval": [[0, 0, 0], [1, -2, 1], [0, -1, 2]]}
+            ctx.begin_case()
+            r = execute(case, ctx)
+            n += 1; nnear += 1
+            if r.status == "fail":
+                failures.append({"case": case, "detail": r.detail, "signature": r.signature})
+                break
+            if r.nontrivial:
+                hashes.append(M.case_hash(case))
         nbig = 0
         for bc in ([] if failures else big_cases(tier)):
             case = {"big": list(bc)}
@@ -480,9 +498,9 @@ def pre_campaign(tier, seed):
                                    "what": "split container computation on 17..40 ranks: " + ("ranks P in {18,27,36} with every K <= 36 stored elements and P in {17,19,23,24,32,40} with K in {1,2,3,5,7,P/2,P-1,P,P+2}" if tier == "thorough" else
                                            "the pairs at which the floating-point colour assignment of the ranks is irregular, plus five others") +
                                            "; fixed two-site model without S_z conservation, all stored components non-zero",
-                                   "pairs": n - nbig, "inconclusive": inconclusive,
+                                   "pairs": n - nbig - nnear, "inconclusive": inconclusive, "fixed_near_resonance_cases": nnear,
                                    "large_block_models": [{"sites": b[0], "complex": b[1], "ranks": b[2]} for b in big_cases(tier)][:nbig]}}
-    return {"failures": failures[:1], "coverage": cov, "evaluations": n, "nontrivial_hashes": hashes, "classes": {"P>16": n - nbig, "large-blocks": nbig}}
+    return {"failures": failures[:1], "coverage": cov, "evaluations": n, "nontrivial_hashes": hashes, "classes": {"P>16": n - nbig - nnear, "large-blocks": nbig, "fixed-near-resonance": nnear}}
 
 
 def vmax(vals):
